@@ -170,6 +170,17 @@ Definition end_spec (run_returned close_returned leak : bool) : Prop :=
 Definition end_oracle (run_returned close_returned leak : bool) : bool :=
   run_returned && close_returned && negb leak.
 
+(* Overlapping Close calls while a helper goroutine is verifiably still running (the harness
+   holds the run loop inside a callback of the injected clock): NO Close call may have returned
+   while it was held ("Close returns only when all helper goroutines have finished" speaks of
+   every call, not of the first); once it is let go, every Close call and Run return and
+   nothing is left. *)
+Definition park_spec (returned_while_held : Z) (all_closes_returned run_returned leak : bool) : Prop :=
+  returned_while_held = 0 /\ end_spec run_returned all_closes_returned leak.
+
+Definition park_oracle (returned_while_held : Z) (all_closes_returned run_returned leak : bool) : bool :=
+  (returned_while_held =? 0) && end_oracle run_returned all_closes_returned leak.
+
 Definition any_spec (flushed : bool) (tl : list (Z * Z)) (run_ret close_ret leak : bool) : Prop :=
   counts_ok 0 0 tl /\ (flushed = true -> followed tl) /\ end_spec run_ret close_ret leak.
 
